@@ -265,3 +265,50 @@ PROPS['C19'] = {
 MANIFEST_TEXT['C19'] = {'claim': 'compile-time constant assertions built under every GOOS/GOARCH pair of the toolchain (complete enumeration); unsupported-architecture behaviour for every GOARCH without tables; non-Linux stub sources transplanted to the host and executed against generated policies',
                         'note': 'compiler-decided equality per build context; stubs executed on the host only',
                         'technique': 'exhaustive configuration enumeration with compile-time assertions + differential property test (rapid) on transplanted sources'}
+
+_KCHILD = ['kchild', {'name': 'kchild', 'goarch': '386'}]
+_KERNEL_ASSUMPTIONS = ['running kernel 6.18 with seccomp filter, TSYNC and CONFIG_IA32_EMULATION; checks run as root',
+                       'probe syscalls getppid/getuid/geteuid/getgid/getegid/getpgrp ignore their argument registers and are not used by the Go runtime',
+                       'all kernel interaction happens in throw-away child processes built from /repo with the hooks on; a child timeout is inconclusive']
+
+PROPS['C08'] = {
+    'level': 'exploration',
+    'rule': ('cases = (ABI amd64|386, probe policy, no_new_privs, flags 0..3, probe events, strace flag): policies decide only about six harmless probe syscalls (names, conditions on all six arguments, '
+             '1..4 groups, optionally an allow group over the whole table => long programs, default allow/errno/kill_process/log/trace); one fresh child per case installs it with LoadFilter and '
+             'issues 20..60 raw probe calls with arbitrary register values from the loading thread and from a second thread; oracle: reference decision -> observed result (normal value / EPERM / '
+             'ENOSYS for trace / SIGSYS death exactly at the first kill_process probe); the sock_fprog captured immediately before seccomp(2) must equal the independently compiled program '
+             '(length and every instruction) and flags; 10% of the cases additionally under strace; a case is non-trivial iff an argument condition yields different outcomes for two probes of the same '
+             'syscall, or the program is longer than 255, or the deciding group is >= 2, or a kill occurs; distinct by hash of the case JSON'),
+    'assumptions': _KERNEL_ASSUMPTIONS + ['trap / kill_thread / user_notif are decided by the interpreter checks only'],
+    'required_classes': {'all': ['abi:amd64', 'abi:386', 'flag:0', 'flag:1', 'flag:2', 'flag:3', 'program>255', 'decided-by-group>=2',
+                                 'argument-condition-outcome-differs-between-probes', 'killed-by-SIGSYS-at-the-expected-probe', 'probe-denied-EPERM',
+                                 'probe-trace-ENOSYS', 'probe-allowed', 'strace-cross-check']},
+    'units': [
+        {'test': 'TestC08Kernel', 'checks': {'quick': 320, 'thorough': 20000}, 'shards': {'quick': 8, 'thorough': 16}, 'helpers': _KCHILD,
+         'timeout': {'quick': 400, 'thorough': 3300}},
+    ],
+}
+MANIFEST_TEXT['C08'] = {'claim': 'generated probe policies installed by LoadFilter in one fresh child each (amd64 and i386 ABI); every probe call observed on the running kernel is compared with the reference decision; installed program == compiled program at the syscall wrapper, sampled strace cross-check',
+                        'note': 'real kernel 6.18 as ground truth; only six harmless syscalls are ever denied',
+                        'technique': 'property-based testing (rapid) with a reference model, differential against the running kernel in throw-away children'}
+
+PROPS['C09'] = {
+    'level': 'fault_enumeration',
+    'rule': ('cases = histories of 2..12 operations executed by one fresh child each on 1..6 locked OS threads (plus the runtime\'s own), as root or as uid 65534: load(thread, no_new_privs, '
+             'flags in {0,tsync,log,tsync|log,tsync|tsync_esrch,0x80,0xfffffffe}, policy kind in {valid over the probes, unknown name, argument index 6, no groups, oversize > 4096 instructions}) and '
+             'supported(thread); generation is biased towards refusals (thread-sync from a thread while another carries its own filter; unprivileged loads without no_new_privs); after every '
+             'operation every thread issues the six probes and all Seccomp / Seccomp_filters / NoNewPrivs fields are read; invariants: nil => one more filter on the caller with the policy\'s '
+             'decisions in force, and with thread-sync every thread equal to the caller; not attached => non-nil and nothing changed except the caller\'s no_new_privs when requested; '
+             'pre-kernel failure => error, no seccomp(2) call, no field changed; Supported() true and changes nothing; a history is non-trivial iff a refused or failed load is followed by a further step; '
+             'distinct by hash of the case JSON'),
+    'assumptions': _KERNEL_ASSUMPTIONS + ['fault kinds are the kernel\'s own refusal modes, provoked by crafted process states; they are enumerated by class, not by injection'],
+    'required_classes': {'all': ['not-attached:EINVAL-oversize-program', 'not-attached:EINVAL-unknown-flag-bits', 'not-attached:EACCES-no-privilege', 'not-attached:thread-sync-refused',
+                                 'pre-kernel-failure-with-nnp-requested', 'supported-probe', 'supported-after-a-load', 'attached', 'thread-sync-attached', 'uid:0', 'uid:65534']},
+    'units': [
+        {'test': 'TestC09Histories', 'checks': {'quick': 240, 'thorough': 12000}, 'shards': {'quick': 8, 'thorough': 16}, 'helpers': _KCHILD,
+         'timeout': {'quick': 400, 'thorough': 3300}},
+    ],
+}
+MANIFEST_TEXT['C09'] = {'claim': 'generated load histories on several OS threads with every kernel refusal mode (EINVAL oversize / unknown flag bits, EACCES, refused thread-sync reported as a positive return value) and pre-kernel failures; invariants over per-thread /proc status and probe vectors after every step',
+                        'note': 'real kernel as ground truth; refusal modes are provoked through process state, each in its own child',
+                        'technique': 'property-based testing (rapid) of operation histories with invariants checked after every step; fault classes enumerated'}
